@@ -194,6 +194,21 @@ pub mod proofs {
         kani::cover!(true, "dropped");
     }
 
+    /// backend level: with_pipe fails on its second signal: the first one must not stay registered
+    #[kani::proof]
+    #[kani::unwind(6)]
+    pub fn c12_failed_with_pipe_leaves_nothing() {
+        reg::init_globals();
+        unsafe { K::extra_reject = SB };
+        let p = ok(libc::vshim::net::UnixStream::pair());
+        assert!(p.is_some(), "C12: pair failed");
+        let (r, w) = p.unwrap();
+        let d = ok(signal_hook::iterator::backend::SignalDelivery::with_pipe(r, w, SignalOnly::default(), &[SA, SB]));
+        assert!(d.is_none(), "C12: a constructor with a rejected signal succeeded");
+        assert!(reg::view(SA).n == 0 && !reg::view(SB).present, "C12: a failed constructor left a registration behind");
+        kani::cover!(reg::view(SA).present, "the first signal had been taken over before the failure");
+    }
+
     /// a constructor that fails leaves nothing registered and closes its pipe
     #[kani::proof]
     #[kani::unwind(6)]
